@@ -534,6 +534,7 @@ def execute(case, keep_text=False):
         log.add('cache', 'probe', [mol, T, P, got])
 
     held = []
+    held_cia = []
 
     def clear_served():
         if ref['served']:
@@ -730,7 +731,18 @@ def execute(case, keep_text=False):
                     for TT, want in ((T[j], x[j]),
                                      (0.5 * (T[j] + T[j + 1]),
                                       0.5 * (x[j] + x[j + 1]))):
-                        got = np.asarray(obj.cia(TT), dtype=float)
+                        if held_cia:
+                            a_obj, a_copy = held_cia.pop()
+                            if not np.array_equal(
+                                    np.asarray(a_obj, dtype=float), a_copy,
+                                    equal_nan=True):
+                                viol('result-overwritten', 'cia', 'the array '
+                                     'returned for %s changed after a later '
+                                     'request' % pair, step)
+                                raise Stop()
+                        raw = obj.cia(TT)
+                        got = np.asarray(raw, dtype=float)
+                        held_cia.append((raw, np.array(got, copy=True)))
                         wns = np.sort(np.asarray(t['wn'], dtype=float))
                         if got.shape == wns.shape:
                             got = _tie_sorted(wns, got)
